@@ -103,10 +103,15 @@ def gen_value(rng, delim, env, prod=None):
         den = ("elems", [text])
     elif kind < 0.70:      # defined reference
         key = rng.choice(["FOO", "BAR"])
-        form = rng.choice(["${%s}", "$?{%s}", "${%s-dflt}"]) % key
+        form = rng.choice(["${%s}", "$?{%s}", "${%s-dflt}", "$?{%s-dflt}"]) % key
         tail = rng.choice(["/bin", "", "/lib"])
         if key in env:
-            den = ("elems", [interp1(env, env[key] + tail)])
+            val = interp1(env, env[key] + tail)
+            pieces = val.split(delim)
+            if len(pieces) > 1 and all(pieces) and len(set(pieces)) == len(pieces):
+                den = ("multi", pieces)         # the variable's value is itself a list: its elements, in order
+            else:
+                den = ("elems", [val])
         elif "-dflt" in form:
             den = ("elems", ["dflt" + tail])
         elif form.startswith("$?"):
@@ -125,6 +130,9 @@ def gen_value(rng, delim, env, prod=None):
     elif kind < 0.90:      # multi-element value
         a, b = rng.sample(atoms, 2)
         text, den = a + delim + b, ("multi", [a, b])
+    elif kind < 0.92:
+        text, den = rng.choice([delim, delim + delim, ""]), ("unspecified",)      # nothing but delimiters
+        return text, {"den": den, "pre": False, "app": False}
     else:
         text, den = rng.choice(atoms + ["x" + delim.strip() + "y" if delim.strip() else "xy"]), None
         den = ("elems", [text]) if delim not in text else ("unspecified",)
@@ -158,7 +166,8 @@ def gen_case(rng):
     env = {}
     if rng.random() < 0.7:
         r = rng.random()
-        env["FOO"] = "/foo" if r < 0.7 else ("" if r < 0.85 else "${BAR}/n")   # defined-but-empty is still defined; nested reference
+        # defined-but-empty is still defined; nested reference; a value that is itself a list
+        env["FOO"] = "/foo" if r < 0.6 else ("" if r < 0.75 else ("${BAR}/n" if r < 0.88 else "/p1" + delim + "/p2"))
     if rng.random() < 0.4:
         env["BAR"] = "bar" if rng.random() < 0.8 else ""
     prod = gen_product(rng) if rng.random() < 0.35 else None
